@@ -84,12 +84,15 @@ def main():
     ap.add_argument("--missing", action="store_true")
     ap.add_argument("--all-checks", action="store_true")
     ap.add_argument("--checks", help="comma-separated list overriding the file-based choice")
+    ap.add_argument("--skip", help="comma-separated checks left out of the file-based choice (never the change's own property)")
     args = ap.parse_args()
     muts = []
     for meta in sorted((ROOT / "benign").glob("*/meta.json")):
         j = json.loads(meta.read_text())
         patch = meta.parent / "patch.diff"
         cs = args.checks.split(",") if args.checks else checks_for(patch, j["property"], args.all_checks)
+        if args.skip:
+            cs = [c for c in cs if c == j["property"] or c not in args.skip.split(",")]
         muts.append({"name": meta.parent.name, "prop": j["property"], "kind": j.get("kind"), "patch": str(patch), "checks": cs})
     if args.only:
         muts = [m for m in muts if args.only in m["name"]]
@@ -105,9 +108,7 @@ def main():
                 latest = json.loads(resfile.read_text()) if resfile.exists() else {}
             except Exception:  # noqa: BLE001
                 latest = {}
-            if name in latest and "checks" in latest[name] and "checks" in res and not args.all_checks and not args.checks:
-                pass
-            elif name in latest and "checks" in latest[name] and "checks" in res:
+            if name in latest and "checks" in latest[name] and "checks" in res:
                 merged = dict(latest[name]["checks"])
                 merged.update(res["checks"])
                 res["checks"] = merged
